@@ -12,8 +12,8 @@
    context (wfb), every argument sequence including spreads, every classification `special` of keys into
    identifiers / non-identifiers that makes the parameter names identifiers, and both validation paths.
 
-   The model is the code after the fix commits 3c868d2, 8478320, 81cf028; the inputs on which the code
-   departed from Python before them are kept as Examples below (and in corpus/C11). *)
+   The model is the code after the fix commits 3c868d2, 8478320, 81cf028, 87d326f; the inputs on which the code
+   departed from Python before them are kept as Examples below (and in corpus/C11).  No theorem is _partial. *)
 From DJC Require Import Lib.Base Bind.Model Bind.Proofs.
 Import Coq.Strings.String.StringSyntax.
 Local Open Scope string_scope.
@@ -41,7 +41,8 @@ Proof. exact fast_fallback_lemma. Qed.
 Print Assumptions fast_path_agrees_with_fallback.
 
 (* Whatever is refused is refused with TypeError or SyntaxError (never IndexError from defaults[...] or
-   param_names[...]), and SyntaxError only for a positional argument after a keyword one. *)
+   param_names[...], never AttributeError from a key that is not a str), and SyntaxError only for a positional
+   argument after a keyword one. *)
 Theorem only_type_or_syntax_error : forall special use_code sv cv F call e,
   wfb special F = true ->
   impl_bind special use_code sv cv F call = Err e ->
@@ -59,13 +60,14 @@ Theorem non_identifier_only_via_varkw : forall special use_code sv cv F call k v
 Proof. exact special_only_varkw_lemma. Qed.
 Print Assumptions non_identifier_only_via_varkw.
 
-(* Whenever wrapper_render gets as far as the statement  orig_render(self, context, *args, **kwargs)  - i.e. its
-   own split and the validator both returned - that call binds exactly what the equivalent Python call binds, or
-   Python's binding of it raises TypeError and the equivalent call is refused too: render() never runs with
-   other bindings. *)
-Theorem never_called_with_other_bindings : forall special use_code sv cv F call reg inv args kwargs,
+(* Whenever wrapper_render gets as far as the statement  orig_render(self, context, *args, **kwargs)  - i.e.
+   resolve_params, its own split and the validator all returned - that call binds exactly what the equivalent Python
+   call binds, or Python's binding of it raises TypeError and the equivalent call is refused too: render() never runs
+   with other bindings. *)
+Theorem never_called_with_other_bindings : forall special use_code sv cv F call es reg inv args kwargs,
   wfb special F = true ->
-  wsplit special (resolve call) false [] = Ok (reg, inv) ->
+  resolve_params call = Ok es ->
+  wsplit special es false [] = Ok (reg, inv) ->
   validate_params use_code F reg inv = Ok (args, kwargs) ->
   res_equiv (py_call F (sv :: cv :: args) kwargs) (py_bind sv cv F call).
 Proof. exact never_other_bindings_lemma. Qed.
@@ -88,7 +90,7 @@ Example premises_satisfiable :
   let F := mkSig [mkP (s2n "self") None; mkP (s2n "context") None; mkP (s2n "a") None; mkP (s2n "b") (Some 902%N)]
                  [mkP (s2n "c") (Some 903%N)] (Some (s2n "ar"))
                  [mkP (s2n "d") None; mkP (s2n "e") (Some 905%N)] (Some (s2n "kw")) in
-  let call := [TPos 11%N; TKw (s2n "c") 12%N; TKw (s2n "data-x") 13%N; TSpreadD [(s2n "d", 14%N); (s2n "u", 15%N)]] in
+  let call := [TPos 11%N; TKw (s2n "c") 12%N; TKw (s2n "data-x") 13%N; TSpreadD [(DStr (s2n "d"), 14%N); (DStr (s2n "u"), 15%N)]] in
   wfb py_special F = true /\
   impl_bind py_special true SV CV F call =
     Ok (mkB [(s2n "self", SV); (s2n "context", CV); (s2n "a", 11%N); (s2n "b", 902%N); (s2n "c", 12%N);
@@ -102,7 +104,8 @@ Proof. vm_compute. repeat split. Qed.
 Example validator_passes_call_refuses :
   let F := mkSig [mkP (s2n "self") None; mkP (s2n "context") None; mkP (s2n "a") None] [] None [] None in
   let call := [TKw (s2n "a") 1%N] in
-  wsplit py_special (resolve call) false [] = Ok ([(Some (s2n "a"), 1%N)], []) /\
+  resolve_params call = Ok [(Some (s2n "a"), 1%N)] /\
+  wsplit py_special [(Some (s2n "a"), 1%N)] false [] = Ok ([(Some (s2n "a"), 1%N)], []) /\
   validate_params true F [(Some (s2n "a"), 1%N)] [] = Ok ([], [(s2n "a", 1%N)]) /\
   py_call F [SV; CV] [(s2n "a", 1%N)] = Err TypeError /\ py_bind SV CV F call = Err TypeError.
 Proof. vm_compute. repeat split. Qed.
@@ -139,3 +142,16 @@ Example syntax_error_reachable :
             (mkSig [] [mkP (s2n "self") None; mkP (s2n "context") None] (Some (s2n "ar")) [] (Some (s2n "kw")))
             [TKw (s2n "data-x") 1%N; TPos 2%N] = Err SyntaxError.
 Proof. vm_compute. reflexivity. Qed.
+
+(* 87d326f: def render(self, context, a=1, **kw)   {% tag ...d %} with d = {None: 2}  was bound as a=2 (a None key means
+   "positional" in TagParam); now refused like render(self, context, **d), and so is any other key that is not a str *)
+Example nonstring_spread_key_fixed :
+  let F := mkSig [] [mkP (s2n "self") None; mkP (s2n "context") None; mkP (s2n "a") (Some 1%N)] None [] (Some (s2n "kw")) in
+  impl_bind py_special true SV CV F [TSpreadD [(DNone, 2%N)]] = Err TypeError /\
+  py_bind SV CV F [TSpreadD [(DNone, 2%N)]] = Err TypeError /\
+  impl_bind py_special false SV CV F [TSpreadD [(DStr (s2n "u"), 1%N); (DOther, 2%N)]] = Err TypeError /\
+  py_bind SV CV F [TSpreadD [(DStr (s2n "u"), 1%N); (DOther, 2%N)]] = Err TypeError /\
+  (* a positional argument after the mapping: SyntaxError for Python (compile time), TypeError for the tag - same class *)
+  py_bind SV CV F [TSpreadD [(DNone, 2%N)]; TPos 3%N] = Err SyntaxError /\
+  impl_bind py_special true SV CV F [TSpreadD [(DNone, 2%N)]; TPos 3%N] = Err TypeError.
+Proof. vm_compute. repeat split. Qed.
